@@ -56,8 +56,9 @@ type OpEngine struct {
 
 	nodes           []*Node
 	thresholds      *[]int
-	PiecewiseProofs int // comparisons decided by region-wise equality of indicator expressions
-	LoopCuts        int // paths abandoned by bounded loop unrolling
+	leafAlias       map[string]string // exact-tie cases: elements of tensor key equal those of tensor value
+	PiecewiseProofs int               // comparisons decided by region-wise equality of indicator expressions
+	LoopCuts        int               // paths abandoned by bounded loop unrolling
 	bypass          *ssa.Function
 	Findings        []Finding
 	// statistics
